@@ -86,12 +86,12 @@ pub fn ufloat(req: &Req) -> R<String> {
 					let d = if via == "incl" { Uniform::<$t>::try_new_inclusive(lo, hi) } else { Uniform::<$t>::try_new(lo, hi) };
 					match d {
 						Err(e) => format!("err:{:?}", e),
-						Ok(d) => ok_list(with_mock(&words, |r| (0..n).map(|_| $show(r.sample(&d))).collect())),
+						Ok(d) => ok_list(with_mock(&words, |r| draw(r, &d, n).into_iter().map(|x| $show(x)).collect())),
 					}
 				}
 				"new" => ok_list(with_mock(&words, |r| {
 					let d = Uniform::<$t>::new(lo, hi);
-					(0..n).map(|_| $show(r.sample(&d))).collect()
+					draw(r, &d, n).into_iter().map(|x| $show(x)).collect()
 				})),
 				"range" => ok_list(with_mock(&words, |r| (0..n).map(|_| $show(r.range(lo..hi))).collect())),
 				_ => return Err(Bad),
@@ -112,11 +112,11 @@ pub fn expd(req: &Req) -> R<String> {
 			match via {
 				"try" => match Exp::<$t>::try_new(lam) {
 					Err(e) => format!("err:{:?}", e),
-					Ok(d) => ok_list(with_mock(&words, |r| (0..n).map(|_| $show(r.sample(&d))).collect())),
+					Ok(d) => ok_list(with_mock(&words, |r| draw(r, &d, n).into_iter().map(|x| $show(x)).collect())),
 				},
 				_ => ok_list(with_mock(&words, |r| {
 					let d = Exp::<$t>::new(lam);
-					(0..n).map(|_| $show(r.sample(&d))).collect()
+					draw(r, &d, n).into_iter().map(|x| $show(x)).collect()
 				})),
 			}
 		}};
@@ -137,7 +137,7 @@ pub fn norm(req: &Req, logn: bool) -> R<String> {
 			let params: String = $params(&d);
 			match z {
 				Some(zb) => format!("{} z:{}", params, $show(d.from_zscore($from(zb)))),
-				None => format!("{} {}", params, ok_list(with_mock(&words, |r| (0..n).map(|_| $show(r.sample(&d))).collect()))),
+				None => format!("{} {}", params, ok_list(with_mock(&words, |r| draw(r, &d, n).into_iter().map(|x| $show(x)).collect()))),
 			}
 		}};
 	}
@@ -186,10 +186,10 @@ pub fn zig(req: &Req) -> R<String> {
 	let n = req.usize("n")?;
 	let words = req.list_u64("words")?;
 	Ok(match (req.get("kind")?, w) {
-		("norm", 64) => ok_list(with_mock(&words, |r| (0..n).map(|_| s64(r.sample::<f64, _>(&StandardNormal))).collect())),
-		("norm", 32) => ok_list(with_mock(&words, |r| (0..n).map(|_| s32(r.sample::<f32, _>(&StandardNormal))).collect())),
-		("exp", 64) => ok_list(with_mock(&words, |r| (0..n).map(|_| s64(r.sample::<f64, _>(&Exp1))).collect())),
-		("exp", 32) => ok_list(with_mock(&words, |r| (0..n).map(|_| s32(r.sample::<f32, _>(&Exp1))).collect())),
+		("norm", 64) => ok_list(with_mock(&words, |r| draw::<f64, _>(r, &StandardNormal, n).into_iter().map(s64).collect())),
+		("norm", 32) => ok_list(with_mock(&words, |r| draw::<f32, _>(r, &StandardNormal, n).into_iter().map(s32).collect())),
+		("exp", 64) => ok_list(with_mock(&words, |r| draw::<f64, _>(r, &Exp1, n).into_iter().map(s64).collect())),
+		("exp", 32) => ok_list(with_mock(&words, |r| draw::<f32, _>(r, &Exp1, n).into_iter().map(s32).collect())),
 		_ => return Err(Bad),
 	})
 }
